@@ -24,7 +24,7 @@ TOK = ["http://", "https://", "ftp://", "javascript:", "www.", "a.com", "/p", "/
        "/abcdefghijkl", "?q=1&r=2", '"', "'", "<", ">", "&", "&amp;", "(", ")", ".", " ",
        "\u00e9", F25, F28, F31]
 
-PERMITTED = [None, ["http", "https", "ftp"], ["http", "https", "javascript"], ["http"]]   # None = default;
+PERMITTED = [None, ["http", "https", "ftp"], ["http", "https", "javascript"], ["http"], []]   # None = default;
 # the last one makes "https" a scheme that merely *starts with* a permitted one
 EXTRA = ["", ' rel="nofollow" ', "callable"]
 EXTRA_OUT = ["", ' rel="nofollow"', ' class="c"']
@@ -155,7 +155,7 @@ def evaluate(E, text, opts, st, obs=None):
     kwargs = {"shorten": shorten, "require_protocol": require}
     if PERMITTED[pi] is not None:
         kwargs["permitted_protocols"] = list(PERMITTED[pi])
-    permitted = PERMITTED[pi] or ["http", "https"]
+    permitted = PERMITTED[pi] if PERMITTED[pi] is not None else ["http", "https"]     # [] permits nothing
     calls = []
     if EXTRA[xi] == "callable":
         def cb(href):
